@@ -120,7 +120,9 @@ func runC09(s *spec.Spec, logPath string) {
 				switch {
 				case st.U != nil:
 					simrt.BeginCall()
+					setCall(s.Universe[*st.U].String())
 					d := ops.Run(s.Universe[*st.U])
+					setCall("")
 					how := "after returning"
 					if strings.Contains(d, "PANIC") {
 						how = "after a recovered panic"
@@ -134,10 +136,12 @@ func runC09(s *spec.Spec, logPath string) {
 				case st.Pub != nil:
 					simrt.BeginCall()
 					var v interface{}
+					setCall(s.Universe[st.Pub.U].String())
 					func() {
 						defer func() { recover() }()
 						v = ops.Construct(s.Universe[st.Pub.U])
 					}()
+					setCall("")
 					simrt.EndCall("after constructing")
 					if v != nil {
 						slots[st.Pub.Slot] = v
@@ -160,7 +164,9 @@ func runC09(s *spec.Spec, logPath string) {
 								d = "PANIC:" + fmt.Sprint(r)
 							}
 						}()
+						setCall(op.String())
 						d = ops.DigestSubset(v, op.Acc, op.N)
+						setCall("")
 					}()
 					how := "after returning"
 					if strings.Contains(d, "PANIC") {
